@@ -186,6 +186,20 @@ example : (runRead true false 4096 0 (rInit 6 [1, 2, 3, 4, 5]) [.ready [.bytes 2
 example : (runRead true false 4096 0 (rInit 4 [1, 2, 3, 4, 5]) [.ready [.bytes 2, .eagain], .ready [.bytes 3]]).res = .buf .full := by decide
 example : (runRead false false 4096 0 (rInit 4 ([] : List Nat)) [.ready [.eagain], .ready [.bytes 0]]).res = .nil false := by decide
 
+/-- ★ Datagram reads (`net/recv-from`: `mode = RECVFROM`, not chunked): the operation ends with the FIRST call the kernel
+    answers with a byte count — after any number of EINTR retries and earlier would-blocks —, returns exactly that one
+    message's bytes (at most `n`: a longer datagram is truncated to the buffer space asked for, `len = n` in the call), and
+    an EMPTY datagram is a (zero-length) result, not end of stream: it is never reported as nil. -/
+theorem recvfrom_one_message_per_call {α : Type} (limC base n m : Nat) (inc : List α) (as : List Ans) :
+    let o := readLoop false true limC base (rInit n inc) (.bytes m :: as)
+    o.res = .buf .nonchunk ∧ o.calls = [⟨base, n, min (min m n) inc.length⟩] ∧
+      o.st.got = inc.take (min (min m n) inc.length) ∧ o.rest = as := by
+  simp [readLoop, afterReadRes, afterReadSt, readLimit, rInit]
+
+example : (runRead false true 4096 0 (rInit 5 [1, 2, 3, 4, 5, 6, 7, 8]) [.ready [.eagain], .ready [.eintr, .bytes 8, .bytes 3]]).st.got = [1, 2, 3, 4, 5] := by decide
+example : (runRead false true 4096 0 (rInit 5 ([] : List Nat)) [.ready [.bytes 0]]).res = .buf .nonchunk := by decide
+
+
 /-! ## liveness under an explicit fairness hypothesis on the kernel -/
 
 /-- ★ LIVENESS (bounded form).  A write of `len` bytes has ended — completed or raised — once the schedule has
